@@ -86,6 +86,7 @@ func WatchAdverts(m *Mesh) *[]AdvObs {
 		if adv.EncPath != nil && !adv.EncPath.Encrypted {
 			path, _ = protocol.DecodePath(adv.EncPath.Data)
 		}
+		simrt.Eventf("adv %s>%s origin=%s seq=%d routes=%d path=%d seenby=%d", ev.From, ev.To, m.NameOf(adv.OriginAgent), adv.Sequence, len(adv.Routes), len(path), len(adv.SeenBy))
 		obs = append(obs, AdvObs{Seq: ev.Seq, From: ev.From, To: ev.To, Origin: adv.OriginAgent, AdvSeq: adv.Sequence, Routes: adv.Routes, Path: path, SeenBy: adv.SeenBy, At: simrt.Elapsed()})
 	})
 	return &obs
